@@ -34,6 +34,7 @@ from typing import (
     Union,
 )
 from numpy import (
+    inf,
     concatenate,
     delete,
     fromiter,
@@ -208,9 +209,21 @@ class Element(ABC):
         ] = self._parameter_default_upper_limit.copy()
         self._parameter_fixed: Dict[str, bool] = self._parameter_default_fixed.copy()
 
+    def _remove_limits(self, *keys) -> "Element":
+        # Temporarily remove the limits of the given parameters so that new
+        # lower and upper limits can be applied in any order (e.g., when both
+        # of the new limits are above the current upper limit).
+        key: str
+        for key in keys:
+            self._parameter_lower_limit[key] = -inf
+            self._parameter_upper_limit[key] = inf
+
+        return self
+
     def __copy__(self) -> "Element":
         return (
             type(self)()
+            ._remove_limits(*self._parameter_value.keys())
             .set_lower_limits(**self.get_lower_limits())
             .set_upper_limits(**self.get_upper_limits())
             .set_values(**self.get_values())
@@ -549,6 +562,7 @@ class Element(ABC):
             The values can be anything.
         """
         self.set_values(**self.get_default_values(*args, **kwargs))
+        self._remove_limits(*self.get_default_values(*args, **kwargs).keys())
         self.set_lower_limits(**self.get_default_lower_limits(*args, **kwargs))
         self.set_upper_limits(**self.get_default_upper_limits(*args, **kwargs))
         self.set_fixed(**self.are_fixed_by_default(*args, **kwargs))
@@ -563,6 +577,7 @@ class Element(ABC):
             A string key corresponding to a parameter.
         """
         self.set_values(key, self.get_default_value(key))
+        self._remove_limits(key)
         self.set_lower_limits(key, self.get_default_lower_limit(key))
         self.set_upper_limits(key, self.get_default_upper_limit(key))
         self.set_fixed(key, self.is_fixed_by_default(key))
@@ -1682,6 +1697,7 @@ class Container(Element):
                     for k, v in self.get_subcircuits().items()
                 },
             )
+            ._remove_limits(*self._parameter_value.keys())
             .set_lower_limits(**self.get_lower_limits())
             .set_upper_limits(**self.get_upper_limits())
             .set_fixed(**self.are_fixed())
@@ -1701,6 +1717,7 @@ class Container(Element):
                         for k, v in self.get_subcircuits().items()
                     },
                 )
+                ._remove_limits(*self._parameter_value.keys())
                 .set_lower_limits(**self.get_lower_limits())
                 .set_upper_limits(**self.get_upper_limits())
                 .set_fixed(**self.are_fixed())
